@@ -280,4 +280,303 @@ Section Codec.
     split; [exact E1 | exact E2].
   Qed.
 
+  (* the decoder fails only on an odd number of bytes *)
+  Lemma parse_bytes_ok : forall b n i m arg,
+    shape_ok b n = true -> exists ps, parse_bytes c b i m arg = OK ps.
+  Proof.
+    induction b as [| x | op byte r IH] using list_ind2; intros n i m arg Hsh.
+    - exists []. reflexivity.
+    - cbn [shape_ok] in Hsh. discriminate.
+    - cbn [shape_ok] in Hsh. cbn [parse_bytes].
+      destruct (op =? cfg_extended_arg c).
+      + apply andb_true_iff in Hsh as [_ Hsh]. eapply IH; exact Hsh.
+      + destruct (IH 0 (i + 2) 0 0 Hsh) as [rest Hr]. rewrite Hr. eexists; reflexivity.
+  Qed.
+
+  Theorem emit_parse_roundtrip b :
+    wf_units b = true ->
+    exists ps, parse_bytes c b 0 0 0 = OK ps /\ flat_map emit_pinstr ps = b /\
+               offsets_ok 0 ps (zlen b) = true.
+  Proof.
+    intros Hwf. pose proof Hwf as Hwf'. unfold wf_units in Hwf'.
+    apply andb_true_iff in Hwf' as [_ Hsh].
+    destruct (parse_bytes_ok b 0 0 0 0 Hsh) as [ps Hp]. exists ps. split; [exact Hp|].
+    exact (emit_parse_bytes b ps Hwf Hp).
+  Qed.
+
+  (* what offsets_ok says, in words *)
+  Definition p_nargs (p : pinstr) : Z := match p with (_, _, k, _, _) => k end.
+  Definition p_first (p : pinstr) : Z := match p with (_, _, _, f, _) => f end.
+  Definition p_next (p : pinstr) : Z := match p with (_, _, _, _, n) => n end.
+
+  Lemma last_nonempty_default (l : list Z) : forall x d d', last (x :: l) d = last (x :: l) d'.
+  Proof.
+    induction l as [|y l IH]; intros x d d'; [reflexivity|].
+    change (last (x :: y :: l) d) with (last (y :: l) d).
+    change (last (x :: y :: l) d') with (last (y :: l) d'). apply IH.
+  Qed.
+
+  Lemma offsets_ok_props : forall ps i e,
+    offsets_ok i ps e = true ->
+    match ps with [] => i = e | p :: _ => p_first p = i end /\
+    last (map p_next ps) i = e /\
+    Forall (fun p => p_next p - p_first p = 2 * p_nargs p /\ 1 <= p_nargs p) ps /\
+    (forall j p p', nth_error ps j = Some p -> nth_error ps (S j) = Some p' ->
+                    p_next p = p_first p').
+  Proof.
+    induction ps as [|[[[[op a] k] f] nx] r IH]; intros i e H; cbn [offsets_ok] in H.
+    - split; [lia|]. split; [cbn; lia|]. split; [constructor|].
+      intros [|j] p p' H1; discriminate.
+    - apply andb_true_iff in H as [H H4]. apply andb_true_iff in H as [H H3].
+      apply andb_true_iff in H as [H1 H2].
+      destruct (IH nx e H4) as (I1 & I2 & I3 & I4).
+      split; [cbn [p_first]; lia|]. split; [|split].
+      + cbn [map]. destruct r as [|p r'].
+        * cbn in *. lia.
+        * cbn [map] in *.
+          change (last (nx :: p_next p :: map p_next r') i) with (last (p_next p :: map p_next r') i).
+          rewrite (last_nonempty_default _ _ i nx). exact I2.
+      + constructor; [cbn [p_next p_first p_nargs]; lia | exact I3].
+      + intros [|j] p p' Hp Hp'.
+        * cbn in Hp. inversion Hp; subst p. cbn [nth_error] in Hp'.
+          destruct r as [|p0 r']; [discriminate|]. cbn in Hp'. inversion Hp'; subst p0.
+          cbn [p_next]. lia.
+        * cbn [nth_error] in Hp, Hp'. eapply I4; eassumption.
+  Qed.
+
+  Corollary emit_parse_offsets b ps :
+    wf_units b = true -> parse_bytes c b 0 0 0 = OK ps ->
+    match ps with [] => b = [] | p :: _ => p_first p = 0 end /\
+    last (map p_next ps) 0 = zlen b /\
+    Forall (fun p => p_next p - p_first p = 2 * p_nargs p /\ 1 <= p_nargs p) ps /\
+    (forall j p p', nth_error ps j = Some p -> nth_error ps (S j) = Some p' ->
+                    p_next p = p_first p').
+  Proof.
+    intros Hwf Hp. destruct (emit_parse_bytes b ps Hwf Hp) as [_ Ho].
+    destruct (offsets_ok_props ps 0 (zlen b) Ho) as (I1 & I2 & I3 & I4).
+    repeat split; try assumption.
+    destruct ps; [|exact I1]. destruct b; [reflexivity|]. rewrite zlen_cons in I1.
+    pose proof (zlen_nonneg b). lia.
+  Qed.
+
+  (* ---------------------------------------------------------------- *)
+  (** * 2. Decode after encode                                         *)
+
+  Lemma pinstr_eq (a a' b b' d d' e e' f f' : Z) :
+    a = a' -> b = b' -> d = d' -> e = e' -> f = f' -> (a, b, d, e, f) = (a', b', d', e', f').
+  Proof. intros; subst; reflexivity. Qed.
+
+  Lemma wrap32_small x : x <= 2147483647 -> wrap32 x = x.
+  Proof. intros. unfold wrap32, c_int_upper_limit. destruct (_ >? _) eqn:E; lia. Qed.
+  Lemma wrap32_big x : 2147483647 < x -> wrap32 x = x - 4294967296.
+  Proof. intros. unfold wrap32, c_int_upper_limit, c_int_length. destruct (_ >? _) eqn:E; lia. Qed.
+
+  Lemma div_step a P : 0 <= a -> 0 < P -> a / P = (a / (256 * P)) * 256 + (a / P) mod 256.
+  Proof.
+    intros Ha HP. rewrite (Z.mul_comm 256 P). rewrite <- Z.div_div by lia.
+    pose proof (Z.div_mod (a / P) 256). lia.
+  Qed.
+
+  Lemma parse_emit_units_nonneg :
+    forall (j : nat) op a rest i n acc,
+      op <> cfg_extended_arg c -> 0 <= a < 2147483648 ->
+      acc = (a / 256 ^ Z.of_nat j) * 256 -> (j > 0)%nat ->
+      parse_bytes c (emit_units c op a j ++ rest) i n acc =
+      match parse_bytes c rest (i + 2 * Z.of_nat j) 0 0 with
+      | OK r => OK ((op, a, n + Z.of_nat j, i - 2 * n, i + 2 * Z.of_nat j) :: r)
+      | Err e => Err e
+      end.
+  Proof.
+    induction j as [|j IH]; intros op a rest i n acc Hop Ha Hacc Hj; [lia|].
+    cbn [emit_units app].
+    destruct j as [|j'].
+    - cbn [Nat.eqb emit_units app].
+      rewrite parse_op_step by assumption.
+      rewrite byte_at by lia.
+      change (Z.of_nat 0) with 0. change (Z.of_nat 1) with 1 in *.
+      rewrite Z.pow_0_r, Z.div_1_r. rewrite Z.pow_1_r in Hacc.
+      rewrite lor_add by lia.
+      replace (i + 2 * 1) with (i + 2) by lia.
+      destruct (parse_bytes c rest (i + 2) 0 0); [|reflexivity].
+      f_equal. f_equal. apply pinstr_eq; lia.
+    - cbn [Nat.eqb]. rewrite parse_ext_step.
+      set (J := S j') in *.
+      assert (HJ : 256 ^ Z.of_nat (S J) = 256 * 256 ^ Z.of_nat J)
+        by (rewrite Nat2Z.inj_succ, Z.pow_succ_r; lia).
+      assert (Hp : 0 < 256 ^ Z.of_nat J) by (apply Z.pow_pos_nonneg; lia).
+      rewrite byte_at by lia.
+      rewrite HJ in Hacc.
+      assert (HSJ : Z.of_nat (S J) = Z.of_nat J + 1) by lia.
+      assert (H256 : 256 <= 256 ^ Z.of_nat J).
+      { subst J. rewrite Nat2Z.inj_succ, Z.pow_succ_r by lia.
+        assert (0 < 256 ^ Z.of_nat j') by (apply Z.pow_pos_nonneg; lia). lia. }
+      set (P := 256 ^ Z.of_nat J) in *.
+      assert (Hnew : acc + (a / P) mod 256 = a / P) by (rewrite (div_step a P); lia).
+      rewrite lor_add by lia. rewrite Hnew, shl8.
+      assert (Hsmall : a / P * 256 <= 2147483647).
+      { assert (a / P * P <= a) by (rewrite Z.mul_comm; apply Z.mul_div_le; lia).
+        assert (0 <= a / P) by (apply Z.div_pos; lia). nia. }
+      rewrite wrap32_small by exact Hsmall.
+      rewrite (IH op a rest (i + 2) (n + 1) (a / P * 256)); try assumption; try reflexivity;
+        try lia.
+      rewrite HSJ.
+      replace (i + 2 + 2 * Z.of_nat J) with (i + 2 * (Z.of_nat J + 1)) by lia.
+      destruct (parse_bytes c rest (i + 2 * (Z.of_nat J + 1)) 0 0); [|reflexivity].
+      f_equal. f_equal. apply pinstr_eq; lia.
+  Qed.
+
+  (* one instruction, non-negative argument, any number k >= instrsize of units *)
+  Lemma parse_emit_one_nonneg op a k rest i :
+    op <> cfg_extended_arg c -> 0 <= a < 2147483648 -> 1 <= k -> a < 256 ^ k ->
+    parse_bytes c (emit_units c op a (Z.to_nat k) ++ rest) i 0 0 =
+    match parse_bytes c rest (i + 2 * k) 0 0 with
+    | OK r => OK ((op, a, k, i, i + 2 * k) :: r)
+    | Err e => Err e
+    end.
+  Proof.
+    intros Hop Ha Hk Hlt.
+    rewrite (parse_emit_units_nonneg (Z.to_nat k) op a rest i 0 0); try assumption; try lia.
+    - rewrite Z2Nat.id by lia.
+      destruct (parse_bytes c rest (i + 2 * k) 0 0); [|reflexivity].
+      f_equal. f_equal. apply pinstr_eq; lia.
+    - rewrite Z2Nat.id by lia. rewrite Z.div_small; lia.
+  Qed.
+
+  (* one instruction, negative argument: four units carrying the two's complement bytes,
+     the decoder's C-int wrap gives back the negative number *)
+  Lemma parse_emit_one_neg op a rest i :
+    op <> cfg_extended_arg c -> -2147483648 <= a < 0 ->
+    parse_bytes c (emit_units c op a (Z.to_nat 4) ++ rest) i 0 0 =
+    match parse_bytes c rest (i + 2 * 4) 0 0 with
+    | OK r => OK ((op, a, 4, i, i + 2 * 4) :: r)
+    | Err e => Err e
+    end.
+  Proof.
+    intros Hop Ha.
+    change (Z.to_nat 4) with 4%nat. cbn [emit_units Nat.eqb app].
+    rewrite !byte_at by lia.
+    change (256 ^ Z.of_nat 3) with 16777216. change (256 ^ Z.of_nat 2) with 65536.
+    change (256 ^ Z.of_nat 1) with 256. change (256 ^ Z.of_nat 0) with 1.
+    rewrite Z.div_1_r.
+    set (b3 := (a / 16777216) mod 256). set (b2 := (a / 65536) mod 256).
+    set (b1 := (a / 256) mod 256). set (b0 := a mod 256).
+    assert (H3 : 128 <= b3 < 256) by (subst b3; lia).
+    assert (H2 : 0 <= b2 < 256) by (subst b2; lia).
+    assert (H1 : 0 <= b1 < 256) by (subst b1; lia).
+    assert (H0 : 0 <= b0 < 256) by (subst b0; lia).
+    assert (Hdec : a = b0 + 256 * b1 + 65536 * b2 + 16777216 * b3 - 4294967296)
+      by (subst b0 b1 b2 b3; lia).
+    clearbody b0 b1 b2 b3.
+    rewrite parse_ext_step, lor_add, shl8, wrap32_small by lia.
+    rewrite parse_ext_step, lor_add, shl8, wrap32_small by lia.
+    rewrite parse_ext_step, lor_add, shl8, wrap32_big by lia.
+    rewrite parse_op_step, lor_add by (assumption || lia).
+    replace (i + 2 + 2 + 2 + 2) with (i + 2 * 4) by lia.
+    destruct (parse_bytes c rest (i + 2 * 4) 0 0); [|reflexivity].
+    f_equal. f_equal. apply pinstr_eq; lia.
+  Qed.
+
+  (* instruction lists *)
+  Definition ispec := (Z * Z * Z)%type.     (* opcode, arg, number of units *)
+  Definition ispec_ok (s : ispec) : bool :=
+    match s with (op, a, k) =>
+      negb (op =? cfg_extended_arg c) &&
+      (((0 <=? a) && (a <? 2147483648) && (1 <=? k) && (a <? 256 ^ k))
+       || ((-2147483648 <=? a) && (a <? 0) && (k =? 4)))
+    end.
+  Definition emit_ispec (s : ispec) : list Z :=
+    match s with (op, a, k) => emit_units c op a (Z.to_nat k) end.
+  Fixpoint layout (i : Z) (l : list ispec) : list pinstr :=
+    match l with
+    | [] => []
+    | (op, a, k) :: r => (op, a, k, i, i + 2 * k) :: layout (i + 2 * k) r
+    end.
+
+  Lemma parse_emit_ispec s rest i :
+    ispec_ok s = true ->
+    parse_bytes c (emit_ispec s ++ rest) i 0 0 =
+    match s with (op, a, k) =>
+      match parse_bytes c rest (i + 2 * k) 0 0 with
+      | OK r => OK ((op, a, k, i, i + 2 * k) :: r)
+      | Err e => Err e
+      end
+    end.
+  Proof.
+    destruct s as [[op a] k]. cbn [ispec_ok emit_ispec]. intros H.
+    apply andb_true_iff in H as [Hop H].
+    assert (Hop' : op <> cfg_extended_arg c) by lia.
+    apply orb_true_iff in H as [H|H].
+    - apply andb_true_iff in H as [H H4]. apply Z.ltb_lt in H4.
+      apply parse_emit_one_nonneg; try assumption; lia.
+    - assert (k = 4) by lia. subst k. apply parse_emit_one_neg; try assumption; lia.
+  Qed.
+
+  Theorem parse_emit_list : forall l i,
+    forallb ispec_ok l = true ->
+    parse_bytes c (flat_map emit_ispec l) i 0 0 = OK (layout i l).
+  Proof.
+    induction l as [|s l IH]; intros i H; [reflexivity|].
+    cbn [forallb] in H. apply andb_true_iff in H as [Hs Hl].
+    cbn [flat_map]. rewrite (parse_emit_ispec s _ i Hs).
+    destruct s as [[op a] k]. rewrite (IH _ Hl). reflexivity.
+  Qed.
+
 End Codec.
+
+(* ------------------------------------------------------------------ *)
+(** * Counterexamples: every precondition is needed (checked on the 3.9 configuration,
+      EXTENDED_ARG = 144, LOAD_CONST = 100)                              *)
+
+Definition c39 := PCD.Gen.Cfg39.cfg.
+Definition reemit (c : cfg) (b : list Z) : res (list Z) :=
+  match parse_bytes c b 0 0 0 with
+  | OK ps => OK (flat_map (emit_pinstr c) ps)
+  | Err e => Err e
+  end.
+
+(* five units: the byte shifted out by the C-int wrap is lost *)
+Example cex_five_units :
+  parse_bytes c39 [144; 1; 144; 2; 144; 3; 144; 4; 100; 5] 0 0 0 = OK [(100, 33752069, 5, 0, 10)]
+  /\ reemit c39 [144; 1; 144; 2; 144; 3; 144; 4; 100; 5]
+     = OK [144; 0; 144; 2; 144; 3; 144; 4; 100; 5].
+Proof. split; vm_compute; reflexivity. Qed.
+
+(* trailing EXTENDED_ARG units are silently dropped by the decoder *)
+Example cex_trailing_ext : reemit c39 [100; 1; 144; 2] = OK [100; 1].
+Proof. vm_compute; reflexivity. Qed.
+
+(* odd length *)
+Example cex_odd : parse_bytes c39 [100; 1; 100] 0 0 0 = Err IndexError.
+Proof. vm_compute; reflexivity. Qed.
+
+(* an argument "byte" outside 0..255 *)
+Example cex_big_byte : reemit c39 [100; 256] = OK [100; 0].
+Proof. vm_compute; reflexivity. Qed.
+
+(* decode-after-encode: too few units truncate the argument, a negative argument needs four
+   units, arguments >= 2^31 come back negative, EXTENDED_ARG itself is not an instruction *)
+Example cex_too_few_units :
+  parse_bytes c39 (emit_units c39 100 256 1) 0 0 0 = OK [(100, 0, 1, 0, 2)].
+Proof. vm_compute; reflexivity. Qed.
+Example cex_neg_short :
+  parse_bytes c39 (emit_units c39 100 (-1) 1) 0 0 0 = OK [(100, 255, 1, 0, 2)].
+Proof. vm_compute; reflexivity. Qed.
+Example cex_too_big :
+  parse_bytes c39 (emit_units c39 100 2147483648 4) 0 0 0 = OK [(100, -2147483648, 4, 0, 8)].
+Proof. vm_compute; reflexivity. Qed.
+Example cex_ext_opcode : parse_bytes c39 (emit_units c39 144 7 1) 0 0 0 = OK [].
+Proof. vm_compute; reflexivity. Qed.
+(* (not a counterexample) a negative argument also survives a fifth, redundant 0xff prefix:
+   the wrap happens after the third prefix and -256 | 255 = -1 stays negative *)
+Example ex_neg_five :
+  parse_bytes c39 (emit_units c39 100 (-1) 5) 0 0 0 = OK [(100, -1, 5, 0, 10)].
+Proof. vm_compute; reflexivity. Qed.
+
+Print Assumptions src_instrsize_tie.
+Print Assumptions src_c_int_tie.
+Print Assumptions emit_parse_bytes.
+Print Assumptions emit_parse_roundtrip.
+Print Assumptions emit_parse_offsets.
+Print Assumptions parse_emit_one_nonneg.
+Print Assumptions parse_emit_one_neg.
+Print Assumptions parse_emit_list.
